@@ -223,13 +223,24 @@ def jarRemap (ns : Nests) : Nat → Nest → Option JStr
 /-- fuel that suffices for every acyclic table (`Thm.C14.build_fuel_enough`) -/
 def fuelFor (ns : Nests) : Nat := ns.length + 1
 
+/-- `iter().map(f).collect::<Option<Vec<_>>>()` -/
+def mapOpt {α β : Type} (f : α → Option β) : List α → Option (List β)
+  | [] => some []
+  | a :: rest =>
+    match f a with
+    | none => none
+    | some b =>
+      match mapOpt f rest with
+      | none => none
+      | some bs => some (b :: bs)
+
 /-- the map `old ↦ new` built by `nest_jar` (entries with `old = new` are dropped, which `map_class` cannot see) -/
 def jarTable (ns : Nests) : Option (AList JStr JStr) :=
-  ns.mapM (fun n => (jarRemap ns (fuelFor ns) n).map (fun r => (n.className, r)))
+  mapOpt (fun n => (jarRemap ns (fuelFor ns) n).map (fun r => (n.className, r))) ns
 
 /-- the map built by `MyRemapper::new(nests, true)` -/
 def mapTable (ns : Nests) : Option (AList JStr JStr) :=
-  ns.mapM (fun n => (build ns (fuelFor ns) n.enclClass).map (fun a => (n.className, join a n.innerName)))
+  mapOpt (fun n => (build ns (fuelFor ns) n.enclClass).map (fun a => (n.className, join a n.innerName))) ns
 
 /-- `ARemapper::map_class` over such a table -/
 def tableMap (t : AList JStr JStr) (c : JStr) : JStr :=
@@ -330,16 +341,19 @@ structure FState where
   kept : Nests
   deriving Repr, DecidableEq
 
+/-- side effect of the closure: a missing enclosing class is synthesised and from then on counted as present -/
+def synthEncl (st : FState) (n : Nest) : FState :=
+  if st.inJar.contains n.enclClass then st
+  else
+    { st with inJar := st.inJar ++ [n.enclClass],
+              created := if st.created.contains n.enclClass then st.created else st.created ++ [n.enclClass] }
+
 /-- one evaluation of the filter closure, side effects first -/
 def filterStep (mm : AList JStr (List (JStr × JStr))) (st : FState) (n : Nest) : FState :=
-  if !st.inJar.contains n.className then st
-  else
-    let st1 : FState :=
-      if !st.inJar.contains n.enclClass then
-        { st with inJar := st.inJar ++ [n.enclClass],
-                  created := if st.created.contains n.enclClass then st.created else st.created ++ [n.enclClass] }
-      else st
+  if st.inJar.contains n.className then
+    let st1 := synthEncl st n
     if kindRule mm n then { st1 with kept := st1.kept ++ [n] } else st1
+  else st
 
 def filterRun (jar : Jar) (ns : Nests) : FState :=
   let cs := classesOf jar
@@ -634,54 +648,59 @@ def mapNests (ns : Nests) (m : Mappings) : Option Nests :=
 /-- `[src, dst].into()`: empty strings become `None` -/
 def nameOpt (s : JStr) : Option JStr := if s.isEmpty then none else some s
 
-def applyFields (tr : JStr → JStr) : AList MemberKey Field → AList MemberKey Field → Option (AList MemberKey Field)
-  | [], acc => some acc
-  | (_, fld) :: rest, acc =>
-    match MapDesc.mapDesc tr fld.desc with
-    | none => none
-    | some d =>
-      match name0 fld.names with
-      | none => none
-      | some n =>
-        match AList.insertNew (n, d) { fld with desc := d } acc with
-        | none => none
-        | some acc' => applyFields tr rest acc'
-
-def applyMethods (tr : JStr → JStr) : AList MemberKey Method → AList MemberKey Method → Option (AList MemberKey Method)
-  | [], acc => some acc
-  | (_, mth) :: rest, acc =>
-    match MapDesc.mapDesc tr mth.desc with
-    | none => none
-    | some d =>
-      match name0 mth.names with
-      | none => none
-      | some n =>
-        match AList.insertNew (n, d) { mth with desc := d } acc with
-        | none => none
-        | some acc' => applyMethods tr rest acc'
-
-/-- the class loop shared by `apply_nests_to_mappings` and `undo_nests_to_mappings`; `"panic"` = `dst.unwrap()` -/
-def rewriteClasses (tr : JStr → JStr) (dstf : JStr → JStr) : AList JStr Class → AList JStr Class →
-    Except String (AList JStr Class)
+/-- `map_with_key_from_result_iter`: the items are produced one by one (`step`) and added with `add_child`
+(a key that is already there is an error) -/
+def foldAddE {A K V : Type} [BEq K] (step : A → Except String (K × V)) :
+    List A → AList K V → Except String (AList K V)
   | [], acc => .ok acc
-  | (key, c) :: rest, acc =>
-    match name1 c.names with
-    | none => .error "panic"
-    | some dst =>
-      let src' := tr key
-      let dst' := dstf dst
-      match applyFields tr c.fields [] with
+  | a :: rest, acc =>
+    match step a with
+    | .error e => .error e
+    | .ok (k, v) =>
+      match AList.insertNew k v acc with
       | none => .error "e"
-      | some fs =>
-        match applyMethods tr c.methods [] with
+      | some acc' => foldAddE step rest acc'
+
+/-- one field: descriptor rewritten, key recomputed from the first name and the new descriptor -/
+def stepField (tr : JStr → JStr) (e : MemberKey × Field) : Except String (MemberKey × Field) :=
+  match MapDesc.mapDesc tr e.2.desc with
+  | none => .error "e"
+  | some d =>
+    match name0 e.2.names with
+    | none => .error "e"
+    | some n => .ok ((n, d), { e.2 with desc := d })
+
+def stepMethod (tr : JStr → JStr) (e : MemberKey × Method) : Except String (MemberKey × Method) :=
+  match MapDesc.mapDesc tr e.2.desc with
+  | none => .error "e"
+  | some d =>
+    match name0 e.2.names with
+    | none => .error "e"
+    | some n => .ok ((n, d), { e.2 with desc := d })
+
+def applyFields (tr : JStr → JStr) (fs : AList MemberKey Field) : Except String (AList MemberKey Field) :=
+  foldAddE (stepField tr) fs []
+
+def applyMethods (tr : JStr → JStr) (ms : AList MemberKey Method) : Except String (AList MemberKey Method) :=
+  foldAddE (stepMethod tr) ms []
+
+/-- one class of the loop shared by `apply_nests_to_mappings` and `undo_nests_to_mappings`; `"panic"` = `dst.unwrap()` -/
+def rewriteClass (tr : JStr → JStr) (dstf : JStr → JStr) (e : JStr × Class) : Except String (JStr × Class) :=
+  match name1 e.2.names with
+  | none => .error "panic"
+  | some dst =>
+    match applyFields tr e.2.fields with
+    | .error _ => .error "e"
+    | .ok fs =>
+      match applyMethods tr e.2.methods with
+      | .error _ => .error "e"
+      | .ok ms =>
+        match nameOpt (tr e.1) with
         | none => .error "e"
-        | some ms =>
-          match nameOpt src' with
-          | none => .error "e"
-          | some k' =>
-            match AList.insertNew k' { c with names := [some k', nameOpt dst'], fields := fs, methods := ms } acc with
-            | none => .error "e"
-            | some acc' => rewriteClasses tr dstf rest acc'
+        | some k' => .ok (k', { e.2 with names := [some k', nameOpt (dstf dst)], fields := fs, methods := ms })
+
+def rewriteClasses (tr : JStr → JStr) (dstf : JStr → JStr) (cs : AList JStr Class) : Except String (AList JStr Class) :=
+  foldAddE (rewriteClass tr dstf) cs []
 
 /-- `dukenest::apply_nests_to_mappings` -/
 def applyNests (m : Mappings) (ns : Nests) : Except String Mappings :=
@@ -690,7 +709,7 @@ def applyNests (m : Mappings) (ns : Nests) : Except String Mappings :=
   | some mapped =>
     match mapTable ns, mapTable mapped with
     | some t, some mt =>
-      (match rewriteClasses (tableMap t) (tableMap mt) m.classes [] with
+      (match rewriteClasses (tableMap t) (tableMap mt) m.classes with
        | .ok cs => .ok { m with classes := cs }
        | .error e => .error e)
     | _, _ => .error "diverge"
@@ -704,7 +723,7 @@ def undoNests (m : Mappings) (ns : Nests) : Except String Mappings :=
   match mapTable ns with
   | none => .error "diverge"
   | some t =>
-    match rewriteClasses (tableUnmap t) (fun d => if containsKey ns d then dollarToUU d else d) m.classes [] with
+    match rewriteClasses (tableUnmap t) (fun d => if containsKey ns d then dollarToUU d else d) m.classes with
     | .ok cs => .ok { m with classes := cs }
     | .error e => .error e
 
